@@ -26,9 +26,17 @@ def is_long(tid, seq):
     return (seq + tid) % 8 == 4 and seq % 4 == 0
 
 
+def is_long_fmt(tid, seq):
+    return (seq + tid) % 8 == 3 and seq % 64 == 3
+
+
 def expected_record(tid, seq, strip):
     """Mirror of vh-mt's record generator (kept deliberately tiny).  Returns the exact bytes one call must produce."""
     crc = mix((tid * 1000003 + seq) & M64) & 0xFFFFFFFF
+    if is_long_fmt(tid, seq):
+        unit = "f%xq%x." % (tid, seq)
+        body = (unit * (12000 // len(unit) + 1))[:12000]
+        return ("<%d:%d:F%s:%08x>\n" % (tid, seq, body, crc)).encode()
     if is_long(tid, seq):
         unit = "t%xs%x." % (tid, seq)
         tail = (unit * (1500 // len(unit) + 1))[:1500]
@@ -102,6 +110,8 @@ def check_pipe(data, which, threads, per, strip, res, lane, stats):
         last_seq[tid] = seq
         if is_long(tid, seq):
             stats["long_records"] = stats.get("long_records", 0) + 1
+        if is_long_fmt(tid, seq):
+            stats["long_formatted_records"] = stats.get("long_formatted_records", 0) + 1
         if prev_tid is not None and prev_tid != tid:
             switches += 1
             patterns.add((prev_tid, tid))
@@ -354,6 +364,36 @@ def run(res, tier):
             raise Inconclusive("vh-mt register exited with %d: %s" % (p.returncode, p.stderr[-300:]))
         ev += check_register(p.stdout.decode(), "native:register:seed=%d" % s, res, rstats)
     res.add_lane("native:register", "held", rstats, evaluations=ev, distinct=ev)
+    # first use of the global choice in a fresh process, racing with a write: many short children, delay swept
+    nchild = 800 if tier == "quick" else 8000
+
+    def first(k):
+        # the writer's delay (spin iterations after a spin rendezvous) sweeps the few-nanosecond window around the readers' first load
+        return k, subprocess.run([exe, "first", "6", str(k % 24)], env=common.ENV, stdout=subprocess.PIPE, stderr=subprocess.PIPE, timeout=120)
+
+    outcomes = {}
+    bad_final = bad_read = 0
+    with cf.ThreadPoolExecutor(max_workers=4) as ex:
+        for k, p in ex.map(first, range(nchild)):
+            if p.returncode != 0:
+                raise Inconclusive("vh-mt first exited with %d: %s" % (p.returncode, p.stderr[-200:]))
+            reads, fin = p.stdout.decode().split()
+            rs = [int(x) for x in reads.split(",")]
+            outcomes[(tuple(sorted(set(rs))), fin)] = outcomes.get((tuple(sorted(set(rs))), fin), 0) + 1
+            if fin != "3":
+                bad_final += 1
+            if any(r not in (0, 3) for r in rs):
+                bad_read += 1
+    if bad_final:
+        res.violations.append({"sig": "c19:register:first-use-final-value", "count": bad_final, "check": "c19", "lane": "native:first-use",
+                               "example": {"msg": "in %d of %d fresh processes the global choice did not hold the written value (Never) after the only writer and all first-time readers had finished" % (bad_final, nchild),
+                                           "case": {"kind": "c19-run", "lane": "native:first-use", "bytes_hex": [], "nums": []}}})
+    if bad_read:
+        res.violations.append({"sig": "c19:register:first-use-unwritten-read", "count": bad_read, "check": "c19", "lane": "native:first-use",
+                               "example": {"msg": "in %d of %d fresh processes a first-time reader saw a value that is neither the initial one nor the written one" % (bad_read, nchild),
+                                           "case": {"kind": "c19-run", "lane": "native:first-use", "bytes_hex": [], "nums": []}}})
+    res.add_lane("native:first-use", "held" if not (bad_final or bad_read) else "violated",
+                 {"fresh_processes": nchild, "distinct_outcomes(values read, final)": {"%s -> %s" % (list(k[0]), k[1]): v for k, v in outcomes.items()}}, evaluations=nchild, distinct=len(outcomes))
     res.samples.append({"record_strip_mode": expected_record(3, 5, True).decode(), "record_pass_through_mode": expected_record(3, 5, False).decode("latin1"), "long_record_head": expected_record(0, 4, True)[:40].decode(), "apis": "print!, println!, eprintln!, write!(stdout()), stdout().write_all, writeln!(stderr()), write_fmt, stdout().lock() + two writes"})
     res.samples.append({"register_history_line_format": "thread op(w|r|f) value t_invocation t_response", "example": "0 w 3 9 10"})
     miri_lane(res, tier)
